@@ -83,8 +83,8 @@ def evaluate(prop, tree, configs=("all", "default"), built=None):
     notes = []
     obs, _ = check.run_rules(prop, facts, notes)
     obs += check.check_floors(prop, obs, list(facts.keys()))
-    known = set((k["rule"], k["key"]["fn"], k["key"]["site"]) for k in check.load_known() if k["property"] == prop and k["status"] == "known")
-    bad = set(o.rule for o in obs if not o.ok and o.key() not in known)
+    kidx = check.KnownIndex(prop, facts)
+    bad = set(o.rule for o in obs if not o.ok and kidx.match(o.rule, o.fn, o.site) is None)
     if broken and registry.PROPERTIES[prop].get("needs_all_configs"):
         bad.add("R-TWIN")
     return bad, ("; ".join("%s broken" % c for c in broken) if broken else "")
